@@ -1,42 +1,50 @@
 // ics20hook: regenerates the SHAPE of the aggregate ICS-20 receive path from the Go source (property C16)
 // -> Gen/Ics20HookGen.v
 //
+// The functions are not matched against statement patterns: they are EXECUTED SYMBOLICALLY (interp.go) and what is
+// emitted is the decision tree of the execution:
+//
+//	TGuard g fail ok   a test whose outcome is not known on this path; g is found by DATA FLOW (which call produced the
+//	                   tested value): GDecode (error of ...UnmarshalJSON(packet data, &data)), GAmount (the ok of
+//	                   sdk.NewIntFromString(data.Amount)), GRecvLen (len of the AccAddressFromBech32(data.Receiver) result
+//	                   against common.AddressLength / 20), GDenomErr (error of types.IBCDenom), GNotRegistered
+//	                   (k.IsDenomRegistered(ctx, <IBCDenom result>)), GConvertErr (error of k.ConvertCoin), GAckNotSuccess
+//	                   (<wrapped module's acknowledgement>.Success()), GAppErr / GKeeperErr (error returned by the wrapped
+//	                   module's / the keeper's callback), GOther; [fail] is the subtree in which the test FAILED (error
+//	                   non-nil, not ok, not registered, length differs, acknowledgement not successful), [ok] the other one
+//	TConvert c m t     k.ConvertCoin: c = its context is sdk.WrapSDKContext(<first result of the parameter ctx's
+//	                   CacheContext()>), m = its message is NewMsgConvertCoin(NewCoin(<IBCDenom result>, <NewIntFromString
+//	                   result>), BytesToAddress(<receiver>[.Bytes()]), <receiver>)
+//	TWrite t           a call of the second result of that CacheContext()
+//	TRet r             return: SrcAck (the acknowledgement parameter / the wrapped module's acknowledgement), SrcNil,
+//	                   SrcHook (the keeper hook called with (ctx, packet, that acknowledgement)), SrcAppErr / SrcKeeperErr
+//	                   (the non-nil error of the wrapped module's / keeper's callback), SrcOther
+//	TOther             anything outside the subset (loops, defer, an unknown call that is handed the context or the keeper...)
+//
+// The interpreter follows local closures (`fail := func(reason string) ack {...}`: executed at the call sites, lexical
+// scoping), unexported and exported helper functions / methods of the same package called from the function, transitively,
+// with parameter substitution (a helper that returns an error which the caller turns into the failure event has the same
+// tree as the inlined code, because the nil-ness of every error value is tracked per path), `switch {}` and if / else /
+// if-with-init, early-return and nested forms, local aliases (`underlying := m.app`), && and ||.  Event bookkeeping
+// (EmitTypedEvent, EmitEvents, assignments to fields of local values, loggers) is skipped.  Variable, parameter, function
+// and receiver NAMES do not matter.
+//
 // Sources (relative to -repo):
 //
-//	x/aggregate/keeper/ibc_hook.go : method (Keeper).OnRecvPacket(ctx, packet, ack)  ->  src_hook : list src_stmt
-//	    one entry per top-level statement that matters, in source order:
-//	      SGuard g r   `if <cond> { <event statements>; return <r> }` (no else); the guard kind g is found by DATA FLOW,
-//	                   not by text: GDecode (error of ...UnmarshalJSON), GAmount (the ok of sdk.NewIntFromString),
-//	                   GRecvLen (len of the AccAddressFromBech32 result compared != with common.AddressLength / 20),
-//	                   GDenomErr (error of types.IBCDenom), GNotRegistered (!k.IsDenomRegistered(ctx, <denom>)),
-//	                   GConvertErr (error of k.ConvertCoin), GOther (anything else)
-//	      SConvert c m  the call of k.ConvertCoin: c = its context is sdk.WrapSDKContext(<first result of the
-//	                   parameter ctx's CacheContext()>), m = its message is NewMsgConvertCoin(NewCoin(<IBCDenom result>,
-//	                   <NewIntFromString result>), BytesToAddress(<receiver>[.Bytes()]), <receiver>)
-//	      SWrite       a call of the second result of CacheContext()
-//	      SReturn r    the final return
-//	      SOther       any other statement that is not event bookkeeping (outside the subset: the obligation fails)
-//	    r = SrcAck (the 3rd parameter), SrcNil, SrcOther.  Local variable and parameter NAMES do not matter.
-//	    src_hook_ack_reassigned: the acknowledgement parameter is assigned to / its address is taken somewhere;
-//	    src_hook_denom_from_dest: IBCDenom is called with the packet's DESTINATION port and channel and data.Denom;
-//	    src_hook_write_calls: number of calls of the write function anywhere in the body.
-//	x/aggregate/ibc_middleware.go : (IBCMiddleware).OnRecvPacket is "v := <embedded module>.OnRecvPacket(params);
-//	    error acknowledgement -> return v; otherwise return <keeper>.OnRecvPacket(ctx, packet, v)" in either of the two
-//	    equivalent statement orders; OnTimeoutPacket is NOT declared (inherited from *ibc.Module);
-//	    OnAcknowledgementPacket calls the embedded module first and returns its error, then the keeper's;
-//	    the keeper's OnAcknowledgementPacket is `return nil`.
+//	x/aggregate/keeper/ibc_hook.go  (Keeper).OnRecvPacket -> src_hook;  (Keeper).OnAcknowledgementPacket is `return nil`
+//	x/aggregate/ibc_middleware.go   (IBCMiddleware).OnRecvPacket -> src_mw_recv, OnAcknowledgementPacket -> src_mw_ack,
+//	                                OnTimeoutPacket must NOT be declared (inherited from *ibc.Module)
+//	ibc/module.go                   (Module).OnRecvPacket / OnAcknowledgementPacket / OnTimeoutPacket -> src_module_*
 //
-// Proofs/Ics20Source.v normalises src_hook ([shape_of]) to the two parameters of the hook model and Props/C16.v proves
-// that the regenerated shape is the model's.  A missing function / unparsable file is a failed tie (exit 1).
+// Proofs/Ics20Source.v flattens src_hook to the guard list, normalises it ([shape_of]) to the two parameters of the hook
+// model and compares the other trees with the expected ones; Props/C16.v proves that the regenerated shape is the
+// model's.  A missing function / unparsable file is a failed tie (exit 1).
 package main
 
 import (
-	"bytes"
 	"flag"
 	"fmt"
 	"go/ast"
-	"go/parser"
-	"go/printer"
 	"go/token"
 	"os"
 	"path/filepath"
@@ -48,45 +56,6 @@ func die(f string, a ...interface{}) {
 	os.Exit(1)
 }
 
-var fset = token.NewFileSet()
-
-func src(n ast.Node) string {
-	var b bytes.Buffer
-	printer.Fprint(&b, fset, n)
-	return strings.Join(strings.Fields(b.String()), " ")
-}
-
-func recvTypeName(fd *ast.FuncDecl) string {
-	if fd.Recv == nil || len(fd.Recv.List) != 1 {
-		return ""
-	}
-	t := fd.Recv.List[0].Type
-	if s, ok := t.(*ast.StarExpr); ok {
-		t = s.X
-	}
-	if id, ok := t.(*ast.Ident); ok {
-		return id.Name
-	}
-	return ""
-}
-
-func method(f *ast.File, recv, name string) *ast.FuncDecl {
-	for _, d := range f.Decls {
-		if fd, ok := d.(*ast.FuncDecl); ok && fd.Name.Name == name && recvTypeName(fd) == recv {
-			return fd
-		}
-	}
-	return nil
-}
-
-func parse(path string) *ast.File {
-	f, err := parser.ParseFile(fset, path, nil, 0)
-	if err != nil {
-		die("%v", err)
-	}
-	return f
-}
-
 func coqBool(b bool) string {
 	if b {
 		return "true"
@@ -94,453 +63,35 @@ func coqBool(b bool) string {
 	return "false"
 }
 
-func isIdent(e ast.Expr, name string) bool {
-	id, ok := e.(*ast.Ident)
-	return ok && name != "" && id.Name == name
-}
-
-func unparen(e ast.Expr) ast.Expr {
-	for {
-		p, ok := e.(*ast.ParenExpr)
-		if !ok {
-			return e
-		}
-		e = p.X
-	}
-}
-
-// selector name of a call: f(...) -> "f", a.b.c(...) -> "c"
-func callName(e ast.Expr) (string, *ast.CallExpr) {
-	c, ok := unparen(e).(*ast.CallExpr)
-	if !ok {
-		return "", nil
-	}
-	switch f := c.Fun.(type) {
-	case *ast.Ident:
-		return f.Name, c
-	case *ast.SelectorExpr:
-		return f.Sel.Name, c
-	}
-	return "", c
-}
-
-func paramNames(fd *ast.FuncDecl) []string {
-	var ps []string
-	for _, p := range fd.Type.Params.List {
-		for _, n := range p.Names {
-			ps = append(ps, n.Name)
-		}
-	}
-	return ps
-}
-
-func recvName(fd *ast.FuncDecl) string {
-	if fd.Recv != nil && len(fd.Recv.List) == 1 && len(fd.Recv.List[0].Names) == 1 {
-		return fd.Recv.List[0].Names[0].Name
-	}
-	return ""
-}
-
-// ------------------------------------------------------------------------------------------------ keeper hook
-
-type hookWalk struct {
-	ctx, pkt, ack string // parameter names
-	cacheCtx      string // first result of ctx.CacheContext()
-	writeFn       string // second result
-	wrappedCache  string // variable assigned sdk.WrapSDKContext(cacheCtx)
-	data          string // the variable UnmarshalJSON decodes into
-	amount, okVar string // results of NewIntFromString
-	recv          string // first result of AccAddressFromBech32
-	denom         string // first result of IBCDenom
-	msg           string // result of NewMsgConvertCoin
-	msgOK         bool
-	denomFromDest bool
-	errSrc        map[string]string // error variable -> name of the call that assigned it last
-	out           []string
-}
-
-func (w *hookWalk) retKind(r *ast.ReturnStmt) string {
-	if len(r.Results) == 1 {
-		if isIdent(r.Results[0], w.ack) {
-			return "SrcAck"
-		}
-		if isIdent(r.Results[0], "nil") {
-			return "SrcNil"
-		}
-	}
-	return "SrcOther"
-}
-
-// packet.GetDestPort() / packet.DestinationPort
-func (w *hookWalk) isPacketField(e ast.Expr, getter, field string) bool {
-	e = unparen(e)
-	if c, ok := e.(*ast.CallExpr); ok && len(c.Args) == 0 {
-		if s, ok := c.Fun.(*ast.SelectorExpr); ok && isIdent(s.X, w.pkt) && s.Sel.Name == getter {
-			return true
-		}
-	}
-	if s, ok := e.(*ast.SelectorExpr); ok && isIdent(s.X, w.pkt) && s.Sel.Name == field {
-		return true
-	}
-	return false
-}
-
-func (w *hookWalk) isDataField(e ast.Expr, field string) bool {
-	s, ok := unparen(e).(*ast.SelectorExpr)
-	return ok && isIdent(s.X, w.data) && s.Sel.Name == field
-}
-
-// <recv> or <recv>.Bytes()
-func (w *hookWalk) isRecv(e ast.Expr) bool {
-	e = unparen(e)
-	if isIdent(e, w.recv) {
-		return true
-	}
-	if c, ok := e.(*ast.CallExpr); ok && len(c.Args) == 0 {
-		if s, ok := c.Fun.(*ast.SelectorExpr); ok && isIdent(s.X, w.recv) && s.Sel.Name == "Bytes" {
-			return true
-		}
-	}
-	return false
-}
-
-func (w *hookWalk) isWrapOf(e ast.Expr, inner string) bool {
-	n, c := callName(e)
-	return n == "WrapSDKContext" && c != nil && len(c.Args) == 1 && isIdent(c.Args[0], inner)
-}
-
-// an assignment / definition: learn what the left-hand variables hold
-func (w *hookWalk) learn(lhs []ast.Expr, rhs ast.Expr) {
-	name, call := callName(rhs)
-	id := func(i int) string {
-		if i < len(lhs) {
-			if x, ok := lhs[i].(*ast.Ident); ok && x.Name != "_" {
-				return x.Name
+// names of the embedded *ibc.Module field and of the keeper field of struct IBCMiddleware
+func mwFields(p *pkg) (embedded, keeper string) {
+	for _, f := range p.files {
+		for _, d := range f.Decls {
+			g, ok := d.(*ast.GenDecl)
+			if !ok {
+				continue
 			}
-		}
-		return ""
-	}
-	if call == nil {
-		return
-	}
-	switch name {
-	case "CacheContext":
-		if s, ok := call.Fun.(*ast.SelectorExpr); ok && isIdent(s.X, w.ctx) && len(lhs) == 2 {
-			w.cacheCtx, w.writeFn = id(0), id(1)
-		}
-	case "WrapSDKContext":
-		if len(lhs) == 1 && w.isWrapOf(rhs, w.cacheCtx) {
-			w.wrappedCache = id(0)
-		}
-	case "UnmarshalJSON":
-		if len(call.Args) == 2 {
-			if u, ok := call.Args[1].(*ast.UnaryExpr); ok && u.Op == token.AND {
-				if x, ok := u.X.(*ast.Ident); ok {
-					w.data = x.Name
-				}
-			}
-		}
-		if len(lhs) == 1 && id(0) != "" {
-			w.errSrc[id(0)] = name
-		}
-	case "NewIntFromString":
-		if len(lhs) == 2 && len(call.Args) == 1 && w.isDataField(call.Args[0], "Amount") {
-			w.amount, w.okVar = id(0), id(1)
-		}
-	case "AccAddressFromBech32":
-		if len(lhs) == 2 && len(call.Args) == 1 && w.isDataField(call.Args[0], "Receiver") {
-			w.recv = id(0)
-			if id(1) != "" {
-				w.errSrc[id(1)] = name
-			}
-		}
-	case "IBCDenom":
-		if len(lhs) == 2 && len(call.Args) == 3 {
-			w.denom = id(0)
-			if id(1) != "" {
-				w.errSrc[id(1)] = name
-			}
-			w.denomFromDest = w.isPacketField(call.Args[0], "GetDestPort", "DestinationPort") &&
-				w.isPacketField(call.Args[1], "GetDestChannel", "DestinationChannel") && w.isDataField(call.Args[2], "Denom")
-		}
-	case "NewMsgConvertCoin":
-		if len(lhs) == 1 {
-			w.msg = id(0)
-			w.msgOK = w.msgArgsOK(call)
-		}
-	default:
-		// any other call assigning a variable we track as an error: remember its source
-		for i := range lhs {
-			if n := id(i); n != "" {
-				if _, tracked := w.errSrc[n]; tracked {
-					w.errSrc[n] = name
-				}
-			}
-		}
-	}
-}
-
-func (w *hookWalk) msgArgsOK(c *ast.CallExpr) bool {
-	if len(c.Args) != 3 {
-		return false
-	}
-	n0, coin := callName(c.Args[0])
-	if n0 != "NewCoin" || coin == nil || len(coin.Args) != 2 || !isIdent(coin.Args[0], w.denom) || !isIdent(coin.Args[1], w.amount) {
-		return false
-	}
-	n1, b2a := callName(c.Args[1])
-	if n1 != "BytesToAddress" || b2a == nil || len(b2a.Args) != 1 || !w.isRecv(b2a.Args[0]) {
-		return false
-	}
-	return isIdent(unparen(c.Args[2]), w.recv)
-}
-
-// statements that only do event bookkeeping (no control flow, no state access through the keeper)
-func (w *hookWalk) bookkeeping(st ast.Stmt) bool {
-	hasBad := false
-	ast.Inspect(st, func(n ast.Node) bool {
-		switch x := n.(type) {
-		case *ast.ReturnStmt, *ast.BranchStmt, *ast.GoStmt, *ast.DeferStmt, *ast.FuncLit:
-			hasBad = true
-		case *ast.CallExpr:
-			name, _ := callName(x)
-			switch name {
-			case "ConvertCoin", "CacheContext":
-				hasBad = true
-			}
-			if isIdent(x.Fun, w.writeFn) {
-				hasBad = true
-			}
-		}
-		return !hasBad
-	})
-	if hasBad {
-		return false
-	}
-	switch s := st.(type) {
-	case *ast.DeclStmt:
-		return true
-	case *ast.AssignStmt:
-		// event := &T{...} ; event.Field = ... ; _ = EmitTypedEvent(...)
-		if len(s.Rhs) == 1 {
-			if n, _ := callName(s.Rhs[0]); n == "EmitTypedEvent" || n == "EmitEvents" || n == "EmitEvent" {
-				return true
-			}
-		}
-		for _, l := range s.Lhs {
-			root := l
-			for {
-				if sel, ok := root.(*ast.SelectorExpr); ok {
-					root = sel.X
+			for _, sp := range g.Specs {
+				ts, ok := sp.(*ast.TypeSpec)
+				if !ok || ts.Name.Name != "IBCMiddleware" {
 					continue
 				}
-				break
-			}
-			id, ok := root.(*ast.Ident)
-			if !ok {
-				return false
-			}
-			// must not overwrite a variable the walk tracks
-			for _, t := range []string{w.ctx, w.pkt, w.ack, w.cacheCtx, w.writeFn, w.wrappedCache, w.data, w.amount, w.okVar, w.recv, w.denom, w.msg} {
-				if t != "" && id.Name == t {
-					return false
+				st, ok := ts.Type.(*ast.StructType)
+				if !ok {
+					continue
 				}
-			}
-			if _, tracked := w.errSrc[id.Name]; tracked {
-				return false
-			}
-		}
-		// right-hand sides: literals, formatting, error strings — no keeper calls
-		ok := true
-		for _, r := range s.Rhs {
-			ast.Inspect(r, func(n ast.Node) bool {
-				if c, isCall := n.(*ast.CallExpr); isCall {
-					if sel, isSel := c.Fun.(*ast.SelectorExpr); isSel {
-						if x, isID := sel.X.(*ast.Ident); isID && (x.Name == "fmt" || sel.Sel.Name == "Error" || sel.Sel.Name == "String") {
-							return true
-						}
+				for _, fl := range st.Fields.List {
+					t := fl.Type
+					if s, ok := t.(*ast.StarExpr); ok {
+						t = s.X
 					}
-					ok = false
-				}
-				return ok
-			})
-		}
-		return ok
-	case *ast.ExprStmt:
-		n, _ := callName(s.X)
-		return n == "EmitTypedEvent" || n == "EmitEvents" || n == "EmitEvent"
-	}
-	return false
-}
-
-func (w *hookWalk) guardKind(cond ast.Expr) string {
-	cond = unparen(cond)
-	// err != nil
-	if b, ok := cond.(*ast.BinaryExpr); ok && b.Op == token.NEQ {
-		x, y := unparen(b.X), unparen(b.Y)
-		if isIdent(y, "nil") {
-			if id, ok := x.(*ast.Ident); ok {
-				switch w.errSrc[id.Name] {
-				case "UnmarshalJSON":
-					return "GDecode"
-				case "IBCDenom":
-					return "GDenomErr"
-				case "ConvertCoin":
-					return "GConvertErr"
-				}
-			}
-			return "GOther"
-		}
-		// len(recv) != common.AddressLength | 20 (either order)
-		isLen := func(e ast.Expr) bool {
-			n, c := callName(e)
-			return n == "len" && c != nil && len(c.Args) == 1 && w.recv != "" && w.isRecv(c.Args[0])
-		}
-		is20 := func(e ast.Expr) bool {
-			if l, ok := e.(*ast.BasicLit); ok && l.Kind == token.INT && l.Value == "20" {
-				return true
-			}
-			if s, ok := e.(*ast.SelectorExpr); ok && s.Sel.Name == "AddressLength" {
-				return true
-			}
-			return false
-		}
-		if (isLen(x) && is20(y)) || (isLen(y) && is20(x)) {
-			return "GRecvLen"
-		}
-		return "GOther"
-	}
-	if u, ok := cond.(*ast.UnaryExpr); ok && u.Op == token.NOT {
-		x := unparen(u.X)
-		if isIdent(x, w.okVar) {
-			return "GAmount"
-		}
-		if n, c := callName(x); n == "IsDenomRegistered" && c != nil && len(c.Args) == 2 && isIdent(c.Args[0], w.ctx) && isIdent(c.Args[1], w.denom) {
-			return "GNotRegistered"
-		}
-	}
-	return "GOther"
-}
-
-func (w *hookWalk) stmt(st ast.Stmt) {
-	switch s := st.(type) {
-	case *ast.ReturnStmt:
-		w.out = append(w.out, "SReturn "+w.retKind(s))
-		return
-	case *ast.IfStmt:
-		if s.Else != nil {
-			w.out = append(w.out, "SOther")
-			return
-		}
-		if s.Init != nil {
-			a, ok := s.Init.(*ast.AssignStmt)
-			if !ok || len(a.Rhs) != 1 {
-				w.out = append(w.out, "SOther")
-				return
-			}
-			if n, _ := callName(a.Rhs[0]); n == "ConvertCoin" {
-				w.convert(a)
-			} else {
-				w.learn(a.Lhs, a.Rhs[0])
-			}
-		}
-		kind := w.guardKind(s.Cond)
-		// body: bookkeeping statements, then exactly one return
-		body := s.Body.List
-		ret := "SrcOther"
-		okBody := len(body) > 0
-		for i, b := range body {
-			if i == len(body)-1 {
-				if r, isRet := b.(*ast.ReturnStmt); isRet {
-					ret = w.retKind(r)
-				} else {
-					okBody = false
-				}
-			} else if !w.bookkeeping(b) {
-				okBody = false
-			}
-		}
-		if !okBody {
-			w.out = append(w.out, "SOther")
-			return
-		}
-		w.out = append(w.out, "SGuard "+kind+" "+ret)
-		return
-	case *ast.ExprStmt:
-		if c, ok := s.X.(*ast.CallExpr); ok && isIdent(c.Fun, w.writeFn) && len(c.Args) == 0 {
-			w.out = append(w.out, "SWrite")
-			return
-		}
-	case *ast.AssignStmt:
-		if len(s.Rhs) == 1 {
-			if n, _ := callName(s.Rhs[0]); n == "ConvertCoin" {
-				w.convert(s)
-				return
-			}
-			if n, c := callName(s.Rhs[0]); c != nil {
-				switch n {
-				case "CacheContext", "WrapSDKContext", "UnmarshalJSON", "NewIntFromString", "AccAddressFromBech32", "IBCDenom", "NewMsgConvertCoin":
-					w.learn(s.Lhs, s.Rhs[0])
-					return
-				}
-			}
-		}
-	}
-	if w.bookkeeping(st) {
-		return
-	}
-	w.out = append(w.out, "SOther")
-}
-
-func (w *hookWalk) convert(a *ast.AssignStmt) {
-	_, c := callName(a.Rhs[0])
-	onCache, msgOK := false, false
-	if c != nil && len(c.Args) == 2 {
-		onCache = (w.wrappedCache != "" && isIdent(c.Args[0], w.wrappedCache)) || (w.cacheCtx != "" && w.isWrapOf(c.Args[0], w.cacheCtx))
-		if isIdent(c.Args[1], w.msg) {
-			msgOK = w.msgOK
-		} else if n, mc := callName(c.Args[1]); n == "NewMsgConvertCoin" && mc != nil {
-			msgOK = w.msgArgsOK(mc)
-		}
-	}
-	// the error result
-	if len(a.Lhs) == 2 {
-		if id, ok := a.Lhs[1].(*ast.Ident); ok && id.Name != "_" {
-			w.errSrc[id.Name] = "ConvertCoin"
-		}
-	}
-	w.out = append(w.out, fmt.Sprintf("SConvert %s %s", coqBool(onCache), coqBool(msgOK)))
-}
-
-// ------------------------------------------------------------------------------------------------ middleware
-
-// names of the embedded *ibc.Module field and of the keeper field of struct IBCMiddleware
-func mwFields(f *ast.File) (embedded, keeper string) {
-	for _, d := range f.Decls {
-		g, ok := d.(*ast.GenDecl)
-		if !ok {
-			continue
-		}
-		for _, sp := range g.Specs {
-			ts, ok := sp.(*ast.TypeSpec)
-			if !ok || ts.Name.Name != "IBCMiddleware" {
-				continue
-			}
-			st, ok := ts.Type.(*ast.StructType)
-			if !ok {
-				continue
-			}
-			for _, fl := range st.Fields.List {
-				t := fl.Type
-				if s, ok := t.(*ast.StarExpr); ok {
-					t = s.X
-				}
-				sel, isSel := t.(*ast.SelectorExpr)
-				if len(fl.Names) == 0 && isSel && sel.Sel.Name == "Module" {
-					embedded = sel.Sel.Name
-				}
-				if len(fl.Names) == 1 && isSel && sel.Sel.Name == "Keeper" {
-					keeper = fl.Names[0].Name
+					sel, isSel := t.(*ast.SelectorExpr)
+					if len(fl.Names) == 0 && isSel && sel.Sel.Name == "Module" {
+						embedded = sel.Sel.Name
+					}
+					if len(fl.Names) == 1 && isSel && sel.Sel.Name == "Keeper" {
+						keeper = fl.Names[0].Name
+					}
 				}
 			}
 		}
@@ -548,44 +99,28 @@ func mwFields(f *ast.File) (embedded, keeper string) {
 	return
 }
 
-// <im>.<field>.<meth>(args...) with args = the given identifiers, in order
-func isFieldCall(e ast.Expr, im, field, meth string, args []string) bool {
-	c, ok := unparen(e).(*ast.CallExpr)
-	if !ok || len(c.Args) != len(args) {
-		return false
-	}
-	s, ok := c.Fun.(*ast.SelectorExpr)
-	if !ok || s.Sel.Name != meth {
-		return false
-	}
-	f, ok := s.X.(*ast.SelectorExpr)
-	if !ok || !isIdent(f.X, im) || f.Sel.Name != field {
-		return false
-	}
-	for i, a := range args {
-		if !isIdent(c.Args[i], a) {
-			return false
+// the single field of struct Module whose type is an IBCModule interface
+func moduleField(p *pkg) string {
+	for _, f := range p.files {
+		for _, d := range f.Decls {
+			g, ok := d.(*ast.GenDecl)
+			if !ok {
+				continue
+			}
+			for _, sp := range g.Specs {
+				ts, ok := sp.(*ast.TypeSpec)
+				if !ok || ts.Name.Name != "Module" {
+					continue
+				}
+				if st, ok := ts.Type.(*ast.StructType); ok && len(st.Fields.List) == 1 && len(st.Fields.List[0].Names) == 1 {
+					if sel, ok := st.Fields.List[0].Type.(*ast.SelectorExpr); ok && sel.Sel.Name == "IBCModule" {
+						return st.Fields.List[0].Names[0].Name
+					}
+				}
+			}
 		}
 	}
-	return true
-}
-
-func singleReturn(b *ast.BlockStmt) ast.Expr {
-	if b != nil && len(b.List) == 1 {
-		if r, ok := b.List[0].(*ast.ReturnStmt); ok && len(r.Results) == 1 {
-			return r.Results[0]
-		}
-	}
-	return nil
-}
-
-func isSuccessCall(e ast.Expr, v string) bool {
-	c, ok := unparen(e).(*ast.CallExpr)
-	if !ok || len(c.Args) != 0 {
-		return false
-	}
-	s, ok := c.Fun.(*ast.SelectorExpr)
-	return ok && isIdent(s.X, v) && s.Sel.Name == "Success"
+	return ""
 }
 
 func main() {
@@ -597,143 +132,83 @@ func main() {
 	}
 
 	// ---------------------------------------------------------------- keeper hook
-	hf := parse(filepath.Join(*repo, "x/aggregate/keeper/ibc_hook.go"))
-	hk := method(hf, "Keeper", "OnRecvPacket")
+	kp := loadPkg(filepath.Join(*repo, "x/aggregate/keeper"))
+	hk := kp.methods["Keeper.OnRecvPacket"]
 	if hk == nil || hk.Body == nil {
-		die("x/aggregate/keeper/ibc_hook.go: method (Keeper).OnRecvPacket not found")
+		die("x/aggregate/keeper: method (Keeper).OnRecvPacket not found")
 	}
-	params := paramNames(hk)
-	if len(params) != 3 {
-		die("(Keeper).OnRecvPacket: expected 3 parameters (ctx, packet, ack), found %d", len(params))
+	if n := len(paramNames(hk)); n != 3 {
+		die("(Keeper).OnRecvPacket: expected 3 parameters (ctx, packet, ack), found %d", n)
 	}
-	w := &hookWalk{ctx: params[0], pkt: params[1], ack: params[2], errSrc: map[string]string{}}
-	for _, st := range hk.Body.List {
-		w.stmt(st)
-	}
+	hin := &interp{p: kp, mode: modeHook}
+	hookTree := hin.run(hk)
 	reassigned := false
-	writeCalls := 0
+	ackName := paramNames(hk)[2]
 	ast.Inspect(hk.Body, func(n ast.Node) bool {
 		switch s := n.(type) {
 		case *ast.AssignStmt:
 			for _, l := range s.Lhs {
-				if isIdent(l, w.ack) {
+				if id, ok := l.(*ast.Ident); ok && id.Name == ackName && s.Tok != token.DEFINE {
 					reassigned = true
 				}
 			}
-		case *ast.IncDecStmt:
-			if isIdent(s.X, w.ack) {
-				reassigned = true
-			}
 		case *ast.UnaryExpr:
-			if s.Op == token.AND && isIdent(s.X, w.ack) {
+			if id, ok := s.X.(*ast.Ident); ok && s.Op == token.AND && id.Name == ackName {
 				reassigned = true // address taken: may be written through the pointer
-			}
-		case *ast.CallExpr:
-			if isIdent(s.Fun, w.writeFn) {
-				writeCalls++
 			}
 		}
 		return true
 	})
+	keeperAckNoop := false
+	if ka := kp.methods["Keeper.OnAcknowledgementPacket"]; ka != nil && ka.Body != nil {
+		kin := &interp{p: kp, mode: modeHook}
+		keeperAckNoop = kin.run(ka).String() == "TRet SrcNil"
+	}
 
 	// ---------------------------------------------------------------- middleware
-	mf := parse(filepath.Join(*repo, "x/aggregate/ibc_middleware.go"))
-	mw := method(mf, "IBCMiddleware", "OnRecvPacket")
+	mp := loadPkg(filepath.Join(*repo, "x/aggregate"))
+	mw := mp.methods["IBCMiddleware.OnRecvPacket"]
 	if mw == nil || mw.Body == nil {
-		die("x/aggregate/ibc_middleware.go: method (IBCMiddleware).OnRecvPacket not found")
+		die("x/aggregate: method (IBCMiddleware).OnRecvPacket not found")
 	}
-	embedded, keeperField := mwFields(mf)
-	im := recvName(mw)
-	mp := paramNames(mw)
-	mwShape := false
-	if l := mw.Body.List; len(l) == 3 && len(mp) == 3 && im != "" && embedded != "" && keeperField != "" {
-		v := ""
-		if a, ok := l[0].(*ast.AssignStmt); ok && len(a.Lhs) == 1 && len(a.Rhs) == 1 {
-			if id, ok := a.Lhs[0].(*ast.Ident); ok && isFieldCall(a.Rhs[0], im, embedded, "OnRecvPacket", mp) {
-				v = id.Name
-			}
-		}
-		if s, ok := l[1].(*ast.IfStmt); ok && v != "" && s.Init == nil && s.Else == nil {
-			inner := singleReturn(s.Body)
-			var last ast.Expr
-			if r, ok := l[2].(*ast.ReturnStmt); ok && len(r.Results) == 1 {
-				last = r.Results[0]
-			}
-			hookArgs := []string{mp[0], mp[1], v}
-			cond := unparen(s.Cond)
-			if u, ok := cond.(*ast.UnaryExpr); ok && u.Op == token.NOT && isSuccessCall(u.X, v) {
-				// if !v.Success() { return v }; return keeper.OnRecvPacket(ctx, packet, v)
-				mwShape = inner != nil && isIdent(inner, v) && last != nil && isFieldCall(last, im, keeperField, "OnRecvPacket", hookArgs)
-			} else if isSuccessCall(cond, v) {
-				// if v.Success() { return keeper.OnRecvPacket(ctx, packet, v) }; return v
-				mwShape = inner != nil && isFieldCall(inner, im, keeperField, "OnRecvPacket", hookArgs) && last != nil && isIdent(last, v)
-			}
-		}
+	embedded, keeperField := mwFields(mp)
+	mwRecv := (&interp{p: mp, mode: modeWrap, wrapped: embedded, keeperField: keeperField}).run(mw)
+	mwAck := &tree{kind: "other"}
+	if am := mp.methods["IBCMiddleware.OnAcknowledgementPacket"]; am != nil && am.Body != nil {
+		mwAck = (&interp{p: mp, mode: modeWrap, wrapped: embedded, keeperField: keeperField}).run(am)
 	}
-	timeoutInherited := method(mf, "IBCMiddleware", "OnTimeoutPacket") == nil
-	ackShape := false
-	if am := method(mf, "IBCMiddleware", "OnAcknowledgementPacket"); am != nil && am.Body != nil && embedded != "" && keeperField != "" {
-		aim := recvName(am)
-		ap := paramNames(am)
-		l := am.Body.List
-		if len(ap) == 4 && aim != "" {
-			// [if err := W.OnAck(p...); err != nil { return err }]  or  [err := W.OnAck(p...); if err != nil { return err }]
-			var call ast.Expr
-			var ifs *ast.IfStmt
-			errName := ""
-			rest := l
-			if len(l) >= 1 {
-				if s, ok := l[0].(*ast.IfStmt); ok && s.Init != nil {
-					if a, ok := s.Init.(*ast.AssignStmt); ok && len(a.Lhs) == 1 && len(a.Rhs) == 1 {
-						if id, ok := a.Lhs[0].(*ast.Ident); ok {
-							errName, call, ifs, rest = id.Name, a.Rhs[0], s, l[1:]
-						}
-					}
-				} else if a, ok := l[0].(*ast.AssignStmt); ok && len(l) >= 2 && len(a.Lhs) == 1 && len(a.Rhs) == 1 {
-					if id, ok := a.Lhs[0].(*ast.Ident); ok {
-						if s, ok := l[1].(*ast.IfStmt); ok && s.Init == nil {
-							errName, call, ifs, rest = id.Name, a.Rhs[0], s, l[2:]
-						}
-					}
-				}
-			}
-			if ifs != nil && ifs.Else == nil && call != nil && isFieldCall(call, aim, embedded, "OnAcknowledgementPacket", ap) {
-				condOK := false
-				if b, ok := unparen(ifs.Cond).(*ast.BinaryExpr); ok && b.Op == token.NEQ && isIdent(b.X, errName) && isIdent(b.Y, "nil") {
-					condOK = true
-				}
-				inner := singleReturn(ifs.Body)
-				if condOK && inner != nil && isIdent(inner, errName) && len(rest) == 1 {
-					if r, ok := rest[0].(*ast.ReturnStmt); ok && len(r.Results) == 1 {
-						ackShape = isFieldCall(r.Results[0], aim, keeperField, "OnAcknowledgementPacket", ap[:3])
-					}
-				}
-			}
+	timeoutInherited := mp.methods["IBCMiddleware.OnTimeoutPacket"] == nil
+
+	// ---------------------------------------------------------------- ibc.Module
+	ip := loadPkg(filepath.Join(*repo, "ibc"))
+	app := moduleField(ip)
+	modTree := func(name string) *tree {
+		fd := ip.methods["Module."+name]
+		if fd == nil || fd.Body == nil || app == "" {
+			return &tree{kind: "other"}
 		}
-	}
-	// the keeper's acknowledgement hook does nothing
-	keeperAckNoop := false
-	if ka := method(hf, "Keeper", "OnAcknowledgementPacket"); ka != nil && ka.Body != nil {
-		if e := singleReturn(ka.Body); e != nil && isIdent(e, "nil") {
-			keeperAckNoop = true
-		}
+		return (&interp{p: ip, mode: modeWrap, wrapped: app}).run(fd)
 	}
 
 	var b strings.Builder
-	b.WriteString("(** GENERATED by tools/gotocoq/ics20hook from x/aggregate/keeper/ibc_hook.go and x/aggregate/ibc_middleware.go.\n    Do not edit. *)\n")
+	b.WriteString("(** GENERATED by tools/gotocoq/ics20hook from x/aggregate/keeper/ibc_hook.go, x/aggregate/ibc_middleware.go and\n    ibc/module.go (symbolic execution; helpers and closures inlined).  Do not edit. *)\n")
 	b.WriteString("From Coq Require Import List.\nImport ListNotations.\n\n")
-	b.WriteString("Inductive src_return := SrcAck | SrcNil | SrcOther.\n")
-	b.WriteString("Inductive src_guard := GDecode | GAmount | GRecvLen | GDenomErr | GNotRegistered | GConvertErr | GOther.\n")
-	b.WriteString("Inductive src_stmt :=\n| SGuard (g : src_guard) (r : src_return)\n| SConvert (on_cache_ctx msg_from_packet : bool)\n| SWrite\n| SReturn (r : src_return)\n| SOther.\n\n")
-	b.WriteString("(** the statements of (Keeper).OnRecvPacket that matter, in source order *)\n")
-	fmt.Fprintf(&b, "Definition src_hook : list src_stmt := [%s].\n", strings.Join(w.out, "; "))
+	b.WriteString("Inductive src_return := SrcAck | SrcNil | SrcHook | SrcAppErr | SrcKeeperErr | SrcOther.\n")
+	b.WriteString("Inductive src_guard := GDecode | GAmount | GRecvLen | GDenomErr | GNotRegistered | GConvertErr | GAckNotSuccess\n  | GAppErr | GKeeperErr | GOther.\n")
+	b.WriteString("Inductive src_tree :=\n| TRet (r : src_return)\n| TGuard (g : src_guard) (fail ok : src_tree)\n| TConvert (on_cache_ctx msg_from_packet : bool) (t : src_tree)\n| TWrite (t : src_tree)\n| TOther.\n\n")
+	b.WriteString("(** decision tree of (Keeper).OnRecvPacket *)\n")
+	fmt.Fprintf(&b, "Definition src_hook : src_tree :=\n  %s.\n", hookTree)
 	fmt.Fprintf(&b, "Definition src_hook_ack_reassigned : bool := %s.\n", coqBool(reassigned))
-	fmt.Fprintf(&b, "Definition src_hook_denom_from_dest : bool := %s.\n", coqBool(w.denomFromDest))
-	fmt.Fprintf(&b, "Definition src_hook_write_calls : nat := %d.\n", writeCalls)
-	fmt.Fprintf(&b, "Definition src_mw_recv_shape : bool := %s.\n", coqBool(mwShape))
-	fmt.Fprintf(&b, "Definition src_mw_timeout_inherited : bool := %s.\n", coqBool(timeoutInherited))
-	fmt.Fprintf(&b, "Definition src_mw_ack_shape : bool := %s.\n", coqBool(ackShape))
+	fmt.Fprintf(&b, "Definition src_hook_denom_from_dest : bool := %s.\n", coqBool(hin.denomCalls > 0 && hin.denomAllDest))
 	fmt.Fprintf(&b, "Definition src_keeper_ack_noop : bool := %s.\n", coqBool(keeperAckNoop))
+	b.WriteString("(** decision trees of (IBCMiddleware).OnRecvPacket / OnAcknowledgementPacket *)\n")
+	fmt.Fprintf(&b, "Definition src_mw_recv : src_tree :=\n  %s.\n", mwRecv)
+	fmt.Fprintf(&b, "Definition src_mw_ack : src_tree :=\n  %s.\n", mwAck)
+	fmt.Fprintf(&b, "Definition src_mw_timeout_inherited : bool := %s.\n", coqBool(timeoutInherited))
+	b.WriteString("(** decision trees of the callbacks of ibc.Module *)\n")
+	fmt.Fprintf(&b, "Definition src_module_recv : src_tree :=\n  %s.\n", modTree("OnRecvPacket"))
+	fmt.Fprintf(&b, "Definition src_module_ack : src_tree :=\n  %s.\n", modTree("OnAcknowledgementPacket"))
+	fmt.Fprintf(&b, "Definition src_module_timeout : src_tree :=\n  %s.\n", modTree("OnTimeoutPacket"))
 
 	path := filepath.Join(*out, "Ics20HookGen.v")
 	if old, err := os.ReadFile(path); err == nil && string(old) == b.String() {
